@@ -89,6 +89,10 @@ def cases(tier, seed):
         d = rng.randint(1, 4)
         cs.append({'gen': 'scalar', 'N': [rng.choice((1, 2, 3, 4)) for _ in range(d)], 'R': gens.rank_profile(rng, d, 'rand', 3), 'scalar': rng.choice([2, 0.5, -4.0, 0.25, 8]),
                    'kind': ['py', 't0', 't1'][i % 3], 'dtype': ['f64', 'f32', 'c128'][i % 3], 'ttm': i % 5 == 4, 'vseed': rng.randrange(2 ** 40)})
+    for i in range(30 if not T else 300):
+        d = rng.randint(1, 4)
+        cs.append({'gen': 'scalar', 'N': [rng.choice((1, 2, 3, 4)) for _ in range(d)], 'R': gens.rank_profile(rng, d, 'rand', 3), 'scalar': rng.choice([3, 7, 2, -4.0, 0.5, 2.5]),
+                   'kind': 'py', 'dtype': 'i64', 'ttm': i % 5 == 4, 'vseed': rng.randrange(2 ** 40)})
     # sequences: several divisions in a row by FRESH divisors of one shape, each divisor dropped before the next is built (what a loop over cases does); every quotient
     # must belong to its own divisor - nothing keyed by a dead object's identity, shape or dtype may be reused
     for i in range(12 if not T else 100):
@@ -145,6 +149,8 @@ def run_case(case, ctx):
 
 def run_scalar(case, ctx, g):
     import torchtt
+    if case['dtype'] == 'i64':
+        return run_scalar_int(case, ctx, g)
     dt = dn.dtype_of(case['dtype'])
     x = gens.make_tt(case['N'], case['R'], dt, 'int', g, M=[n % 2 + 1 for n in case['N']] if case['ttm'] else None)
     s = case['scalar']
@@ -180,6 +186,34 @@ def run_scalar(case, ctx, g):
     elif not dn.bit_equal(dn.D(q), ref):
         ctx.viol(key + '/clause=value-exact', '%s: max diff %.3e' % (what, dn.max_abs_diff(dn.D(q), ref)))
     ctx.nontrivial(('scalar', tuple(case['N']), tuple(case['R']), s, case['kind'], case['dtype'], case['ttm']))
+
+
+def run_scalar_int(case, ctx, g):
+    """x / s for a TT whose cores hold INTEGERS (int64: what torchtt.meshgrid of torch.arange(...) hands out): true division, as for dense integer tensors - nothing is truncated."""
+    import torchtt
+    xf = gens.make_tt(case['N'], case['R'], torch.float64, 'int', g, M=[n % 2 + 1 for n in case['N']] if case['ttm'] else None)
+    x = torchtt.TT([c.to(torch.int64) for c in xf.cores])
+    s = case['scalar']
+    ctx.count('form:x/scalar(integer cores)')
+    key = 'x/scalar/integer-cores'
+    what = 'x/%r N=%s R=%s int64 cores' % (s, case['N'], case['R'])
+    ref = dn.D(xf) / s
+    q = ctx.lib('TT/scalar', lambda a: a / s, x)
+    if isinstance(q, Raised):
+        ctx.count('x/scalar(integer cores)-raised:' + q.type)       # refusing integer objects would be a documented error, not a wrong value
+        return
+    if not isinstance(q, torchtt.TT):
+        ctx.viol(key + '/clause=returns-non-TT', what)
+        return
+    try:
+        dq = dn.D(q)
+    except Exception as e:
+        ctx.viol(key + '/clause=ill-formed-result', '%s: %s' % (what, e))
+        return
+    err, allow = dn.fro(dq.to(ref.dtype) - ref), 1e3 * 1.2e-7 * dn.s_rep(xf) / abs(s)      # the quotient of integers is computed in torch's default (single) precision
+    if not err <= allow:
+        ctx.viol(key + '/clause=value', '%s: ||q - x/s|| = %.3e > %.3e' % (what, err, allow))
+    ctx.nontrivial(('scalar-int', tuple(case['N']), tuple(case['R']), s, case['ttm']))
 
 
 def run_div(case, ctx, g):
